@@ -288,6 +288,32 @@ namespace plan
       m.stmts.push_back(s);
       ++order;
     }
+    else if (n == "touch")
+    { // two top-level interval atoms (state-variable atoms first) related strictly: `a.end > b.start;` - the least value the
+      // arithmetic can give a.end is then b.start + epsilon: two atoms of one timeline that intersect by an infinitesimal only
+      std::vector<const BodyItem *> sv_items, iv_items;
+      for (auto &st : m.stmts)
+        if (st.k == Stmt::FORMULA && st.item && st.item->pred >= 0 && !st.item->local.empty())
+        {
+          const PredD &pd = m.preds[st.item->pred];
+          if (pd.cls >= 0 && m.classes[pd.cls].is_sv)
+            sv_items.push_back(st.item.get());
+          else if (p_interval(pd))
+            iv_items.push_back(st.item.get());
+        }
+      std::vector<const BodyItem *> &pool = sv_items.size() >= 2 ? sv_items : iv_items;
+      if (pool.size() < 2)
+        return;
+      size_t i = static_cast<size_t>(modn(op.arg(0), pool.size())), j = static_cast<size_t>(modn(op.arg(1), pool.size() - 1));
+      if (j >= i)
+        ++j;
+      auto b = std::make_shared<B>();
+      b->k = B::REL;
+      b->rel = (op.arg(2) & 1) ? GT : GEQ;
+      b->l.t.push_back({mpq_class(1), Path{pool[i]->local, "end"}});
+      b->r.t.push_back({mpq_class(1), Path{pool[j]->local, (op.arg(2) & 2) ? "end" : "start"}});
+      assert_stmt(b);
+    }
     else if (n == "pin")
     { // the start (or `at`) T of a top-level goal is tight only under a search decision:
       //   T >= k;   { T <= k; [goal c = new Q();] } or { T >= k + d; }
@@ -442,7 +468,7 @@ namespace plan
       s += ")";
       const bool in_sv = p.cls >= 0 && m.classes[p.cls].is_sv;
       if (p.super >= 0)
-        s += " : " + m.preds[p.super].name;
+        s += " : " + m.preds[p.super].name + (p.second_base_kind == 1 ? ", Interval" : (p.second_base_kind == 2 ? ", Impulse" : ""));
       else if (!in_sv && p.kind == 1)
         s += " : Interval";
       else if (!in_sv && p.kind == 2)
